@@ -65,6 +65,8 @@ def run_demo(d, binp):
                     shutil.copytree(src, os.path.join(tmp, f))
         outs = []
         demos = sorted(f for f in os.listdir(tmp) if re.match(r'demo.*\.(yl|sh)$', f))
+        if a.base == 'HEAD' and any('.rebased.' in f for f in demos):
+            demos = [f for f in demos if '.rebased.' in f and '.alt.' not in f]
         for f in demos:
             if f.endswith('.sh'):
                 rc, out, err = sh(['bash', f, binp], cwd=tmp, timeout=180)
@@ -101,9 +103,11 @@ def one(item, slot, env):
     res['title'] = open(notes).readline().strip().lstrip('# ').strip() if os.path.exists(notes) else ''
     wt = os.path.join(BASE, 'wt%d' % slot)
     worktree(wt)
-    rc, out, err = sh(['git', 'apply', os.path.join(d, 'patch.diff')], cwd=wt)
+    pf = os.path.join(d, 'patch.rebased.diff') if (a.base == 'HEAD' and os.path.exists(os.path.join(d, 'patch.rebased.diff'))) else os.path.join(d, 'patch.diff')
+    res['patch'] = os.path.basename(pf)
+    rc, out, err = sh(['git', 'apply', pf], cwd=wt)
     if rc != 0:
-        rc, out, err = sh(['patch', '-p1', '--no-backup-if-mismatch', '-i', os.path.join(d, 'patch.diff')], cwd=wt)
+        rc, out, err = sh(['patch', '-p1', '--no-backup-if-mismatch', '-i', pf], cwd=wt)
     res['applies'] = rc == 0
     if rc != 0:
         res['error'] = (out + err)[-500:]
